@@ -65,7 +65,10 @@ E0 = Emb("E0-native", 100.0, 0.01, 1.0, True)
 E1 = Emb("E1-coarse", 0.0, 0.5, 10.0)     # a = 0: lattice 0 maps to exactly 0.0 (falsy-zero bugs)
 E2 = Emb("E2-noisy", 0.1 + 0.2, 0.07, 1.0 / 3.0)
 E3 = Emb("E3-twin", -40.0, 0.25, 7.0)
-EMBS = {e.name: e for e in (E0, E1, E2, E3)}
+# native lattice at kiln temperatures (or data in kelvin): the code's ABSOLUTE windows (1e-5 K activity margin, 0.01 K latent
+# glide) must not turn into relative ones -- at 1500 a relative 1e-5 is wider than a latent stream (seeded change C01g)
+E4 = Emb("E4-hot-native", 1500.0, 0.01, 1.0, True)
+EMBS = {e.name: e for e in (E0, E1, E2, E3, E4)}
 
 
 def close(x, y, scale=1.0, rel=1e-6):
